@@ -1,9 +1,73 @@
-"""vcex — counterexample search (Kani on the extracted module, directed concrete search) and thorough-tier Kani runs."""
+"""vcex — counterexample search for a failed obligation.
+
+Verus gives no counterexample.  When an obligation fails, this module (1) rebuilds the replay binary against /repo's
+current working tree (hook feature on) and (2) runs the directed concrete search registered for the property/function
+in units/probes.json: scenarios derived from the failed clause (short-write sinks, injected errors at each call,
+truncation at every offset, boundary varints, limit-sized collections ...).  A scenario that the REAL code fails is a
+confirmed counterexample and is written into the replay file; if none fails the VIOLATION line carries
+`no-failing-input-found`.  (3) Kani harnesses on the extracted module (tools/vkani.py) are the bit-precise second
+back end: thorough tier, and arbiter for leaf units.
+"""
+import json
+import os
+import subprocess
+import time
+
+HERE = os.path.dirname(os.path.abspath(__file__))
+VERIF = os.path.dirname(HERE)
+REPLAY_BIN = os.path.join(VERIF, 'target', 'release', 'verif-replay')
+_built = {'ok': None}
+
+
+def build_replay():
+    if _built['ok'] is not None:
+        return _built['ok']
+    env = dict(os.environ, CARGO_NET_OFFLINE='true', CARGO_TARGET_DIR=os.path.join(VERIF, 'target'))
+    d = os.path.join(VERIF, 'tools', 'replay')
+    try:
+        if os.path.exists('/repo/Cargo.lock'):
+            open(os.path.join(d, 'Cargo.lock'), 'w').write(open('/repo/Cargo.lock').read())
+        p = subprocess.run(['cargo', 'build', '--offline', '--release'], cwd=d, env=env, stdout=subprocess.PIPE, stderr=subprocess.STDOUT, text=True, timeout=900)
+        _built['ok'] = (p.returncode == 0)
+        _built['log'] = p.stdout[-2000:]
+    except Exception as e:  # noqa
+        _built['ok'] = False
+        _built['log'] = repr(e)
+    return _built['ok']
+
+
+def run_scenario(sc, timeout=120):
+    try:
+        p = subprocess.run([REPLAY_BIN, '--scenario', json.dumps(sc)], stdout=subprocess.PIPE, stderr=subprocess.PIPE, text=True, timeout=timeout)
+        return p.returncode, p.stdout.strip()
+    except subprocess.TimeoutExpired:
+        return 1, 'REPRODUCED %s :: replay did not finish within %ds (hang)' % (json.dumps(sc), timeout)
+
+
+def probes_for(pid, fn):
+    p = json.load(open(os.path.join(VERIF, 'units', 'probes.json')))
+    out = []
+    for key in (fn, pid, '*'):
+        out += p.get(key, [])
+    return out
 
 
 def find_counterexample(pid, unit, failure, seed):
-    return None
+    t0 = time.time()
+    if not build_replay():
+        return dict(confirmed_on_real_code=False, note='replay binary could not be built against the current tree: ' + _built.get('log', '')[-500:])
+    tried = 0
+    for sc in probes_for(pid, failure['fn']):
+        tried += 1
+        rc, out = run_scenario(sc)
+        if rc == 1 and out.startswith('REPRODUCED'):
+            return dict(confirmed_on_real_code=True, scenario=sc, replay_output=out[:2000], search='directed concrete search, %d scenario(s) tried, %.1fs' % (tried, time.time() - t0))
+    return dict(confirmed_on_real_code=False, note='directed concrete search: %d scenario(s) tried against the real code, none failed' % tried)
 
 
 def thorough(pid, units, seed):
-    return []
+    try:
+        import vkani
+        return vkani.run_for(pid, units, seed)
+    except ImportError:
+        return []
